@@ -143,6 +143,19 @@ pub fn check(tape: &[u32]) -> CheckResult {
             return Err(Failure::new("order-dependent", format!("call {:?} returned different results depending on call order/repetition", calls[i])).with(detail(json!({"call": format!("{:?}", calls[i])}))));
         }
     }
+    // long history: the cheap (non-rendering) calls repeated many times must keep returning the same
+    // values (catches state that only changes after a warm-up period)
+    {
+        let cheap: Vec<usize> = (0..n).filter(|i| !matches!(calls[*i], Call::FrameImage(_) | Call::CelImage(..) | Call::Tilemap(..) | Call::TilesetImage(_) | Call::TileImage(..) | Call::Debugfmt | Call::Palette)).collect();
+        let rounds = 12000 / cheap.len().max(1) + 1;
+        for round in 0..rounds {
+            for &i in &cheap {
+                if eval(&f, &calls[i]) != base[i] {
+                    return Err(Failure::new("history-dependent", format!("call {:?} changed its result after {} repetitions of the call list", calls[i], round)).with(detail(json!({"call": format!("{:?}", calls[i]), "round": round}))));
+                }
+            }
+        }
+    }
     // concurrent
     let threads = 2 + t.below(15) as usize;
     let seeds: Vec<u64> = (0..threads).map(|_| t.raw64()).collect();
